@@ -19,6 +19,11 @@ def missing_values_discipline(ctx: Ctx, rule: str):
     ctx.check(len(loops) == 2, rule, f.key("two-loops"), "one loop over states+parameters, one over the sorted assignments", f"missing_values has {len(loops)} top-level loops", f.where())
     if len(loops) == 2:
         l1, l2 = loops
+        # the counter: the one local advanced by `+= 1` inside the loops; the bound: whatever is compared with it
+        ctrs = sorted({norm(n.target) for l_ in loops for n in ast.walk(l_) if isinstance(n, ast.AugAssign) and isinstance(n.op, ast.Add) and isinstance(n.value, ast.Constant) and n.value.value == 1})
+        ctr = ctrs[0] if len(ctrs) == 1 else "n"
+        canon = util.canon_of(f)
+        vparam = f.params[1] if len(f.params) > 1 else "values"
         ctx.check(norm(l1.iter) == "self.ode.states + self.ode.parameters", rule, f.key("atoms-loop"), "states and parameters can be exported", f"missing_values: first loop iterates {norm(l1.iter)} (a requested parameter or state of another kind would never be stored: its slot stays 0)", f.where(l1))
         ctx.check(norm(l2.iter) == "self.ode.sorted_assignments(remove_unused=False)", rule, f.key("assignments-loop"), "all assignments, never filtered", f"missing_values: second loop iterates {norm(l2.iter)} (an exported intermediate that nothing else uses would be dropped)", f.where(l2))
         for idx, l in enumerate((l1, l2)):
@@ -29,7 +34,7 @@ def missing_values_discipline(ctx: Ctx, rule: str):
             for p in te.enumerate_paths(l.body):
                 req = [pol for a, pol in p.lits if a == f"{v}.name in values"]
                 stores = [i for i, st in enumerate(p.effects) if isinstance(st, ast.Expr) and f"values_idx[values[{v}.name]]" in norm(st) and f"{v}.symbol" in norm(st)]
-                incs = [i for i, st in enumerate(p.effects) if isinstance(st, ast.AugAssign) and norm(st.target) == "n"]
+                incs = [i for i, st in enumerate(p.effects) if isinstance(st, ast.AugAssign) and norm(st.target) == ctr]
                 defs = [i for i, st in enumerate(p.effects) if isinstance(st, ast.Expr) and f"self._doprint({v}.symbol, {v}.expr" in norm(st)]
                 key = f.key(f"loop{idx + 1}::{p.pred()}")
                 if req and req[0]:
@@ -40,9 +45,16 @@ def missing_values_discipline(ctx: Ctx, rule: str):
                 elif req:
                     ctx.check(not stores and not incs, rule, key, "not requested: nothing stored, counter untouched", f"missing_values path [{p.pred()}]: stores or counts a name that was not requested", f.where(l))
         brk = [n for n in ast.walk(l2) if isinstance(n, ast.If) and any(isinstance(s, ast.Break) for s in n.body)]
-        ctx.check(bool(brk) and norm(brk[0].test) == "n >= N" and brk[0] is l2.body[-1], rule, f.key("early-exit"), "stop once all requested values are stored (n >= N), tested after the store", "missing_values: the early exit is not `if n >= N: break` at the end of the loop body", f.where(l2))
-        nd = {norm(n.targets[0]): norm(n.value) for n in f.node.body if isinstance(n, ast.Assign)}
-        ctx.check(nd.get("N") == "len(values)" and nd.get("n") == "0", rule, f.key("counter-init"), "N = len(values), n = 0", f"missing_values: N = {nd.get('N')}, n = {nd.get('n')}", f.where())
+        okb = False
+        bound_txt = None
+        if brk and isinstance(brk[0].test, ast.Compare) and len(brk[0].test.ops) == 1:
+            t_ = brk[0].test
+            lt, rt = norm(t_.left), canon.text(t_.comparators[0])
+            bound_txt = rt
+            okb = ((lt == ctr and isinstance(t_.ops[0], (ast.GtE, ast.Eq)) and rt == f"len({vparam})") or (canon.text(t_.left) == f"len({vparam})" and norm(t_.comparators[0]) == ctr and isinstance(t_.ops[0], (ast.LtE, ast.Eq)))) and brk[0] is l2.body[-1]
+        ctx.check(okb, rule, f.key("early-exit"), "stop once all requested values are stored (count >= len(values)), tested after the store", f"missing_values: the early exit is not `if <count> >= len({vparam}): break` at the end of the loop body (test: {norm(brk[0].test) if brk else None})", f.where(l2))
+        inits = [n for n in f.node.body if isinstance(n, (ast.Assign, ast.AnnAssign)) and norm(n.targets[0] if isinstance(n, ast.Assign) else n.target) == ctr and n.value is not None]
+        ctx.check(bool(inits) and norm(inits[0].value) == "0" and len(ctrs) == 1, rule, f.key("counter-init"), "one counter, starting at 0", f"missing_values: the stored-values counter is {ctrs} initialised with {norm(inits[0].value) if inits else None}", f.where())
 
 
 
@@ -97,52 +109,55 @@ def run(ctx: Ctx):
 
     ctx.rule("R13.b", "sibling agreement: rhs, monitor_values, missing_values and scheme all unpack the missing variables, append the formal under the same condition and hand the block to the template; both python templates splice it before the body", floor=16)
 
+    from sa import av as _avb13
+
     for mname in ("rhs", "monitor_values", "missing_values", "scheme"):
-        f = util.nff(ctx, cgc.methods[mname])
-        tc = util.template_method_call(f)
-        if tc is None:
+        f = cgc.methods[mname]
+        A13 = util.AV(ctx)
+        n0 = len(A13.call_log)
+        A13.returned(f)
+        tcs = [val for fn_, node_, val in A13.call_log[n0:] if fn_ is not None and fn_.qualname == f.qualname and val[0] == "mcall" and val[2] == "method" and val[1] == ("sym", "self.template")]
+        if not tcs:
+            tcs = [val for fn_, node_, val in A13.call_log if fn_ is not None and fn_.qualname == f.qualname and val[0] == "mcall" and val[2] == "method" and val[1] == ("sym", "self.template")]
+        if not tcs:
             ctx.fail("R13.b", f.key("template"), f"CodeGenerator.{mname} no longer hands its parts to template.method", f.where())
             continue
-        mv = call_kw(tc, "missing_variables")
-        a1 = mv is not None and "_missing_variables_assignments(" in util.ctext(f, mv)
-        ctx.check(a1, "R13.b", f.key("unpack-block"), "the template's missing_variables block is self._missing_variables_assignments()", f"CodeGenerator.{mname} does not hand the missing-variables unpacking block to the template (missing_variables={util.ctext(f, mv) if mv is not None else None})", f.where(tc))
-        # the formal: the constant 'missing_variables' is added to the argument list iff the model has missing variables
-        adders = []
-        for n in ast.walk(f.node):
-            lst, val = None, None
-            if isinstance(n, ast.AugAssign) and isinstance(n.op, ast.Add) and isinstance(n.target, ast.Name):
-                lst, val = n.target.id, n.value
-            elif isinstance(n, ast.Call) and isinstance(n.func, ast.Attribute) and n.func.attr in ("append", "extend") and isinstance(n.func.value, ast.Name) and n.args:
-                lst, val = n.func.value.id, n.args[0]
-            elif isinstance(n, ast.Assign) and len(n.targets) == 1 and isinstance(n.targets[0], ast.Name) and isinstance(n.value, ast.BinOp) and isinstance(n.value.op, ast.Add):
-                lst, val = n.targets[0].id, n.value.right
-            if lst and val is not None and "missing_variables" in [c.value for c in ast.walk(val) if isinstance(c, ast.Constant)]:
-                stmt = n
-                chain = None
-                for st in common.stmts_of(f.node):
-                    if st is n or any(x is n for x in ast.walk(st) if not isinstance(st, (ast.If, ast.For, ast.While, ast.With, ast.Try))):
-                        chain = common.cond_chain(f.node, st)
-                        break
-                adders.append((lst, chain or []))
-        okf = False
-        args_kw = call_kw(tc, "args")
-        for lst, chain in adders:
-            conds = [util.ctext(f, ast.parse(c, mode="eval").body) for c, pol in chain if pol and not c.startswith(("loop", "except"))]
-            guarded = any(c in ("self._missing_variables", "len(self._missing_variables) > 0", "bool(self._missing_variables)", "self._missing_variables != {}") for c in conds)
-            if guarded and args_kw is not None and util.depends_on(f.node, args_kw, lst):
-                okf = True
-        ctx.check(okf, "R13.b", f.key("formal"), "formal `missing_variables` appended iff the model has missing variables, and it reaches the template's args", f"CodeGenerator.{mname} does not add the `missing_variables` formal (under `if self._missing_variables`) to the argument list handed to the template", f.where())
+        kw = dict(tcs[-1][4])
+        mv = kw.get("missing_variables")
+        a1 = mv == ("mcall", ("sym", "self"), "_missing_variables_assignments", (), ())
+        if not a1 and mv is not None:
+            # the helper may have been expanded: its text is a conditional on self._missing_variables
+            a1 = "Assign missing variables" in _avb13.show(mv) and "self._missing_variables" in _avb13.show(mv)
+        ctx.check(a1, "R13.b", f.key("unpack-block"), "the template's missing_variables block is self._missing_variables_assignments()", f"CodeGenerator.{mname} does not hand the missing-variables unpacking block to the template (missing_variables={_avb13.show(mv)[:80] if mv is not None else None})", f.where())
+        args_kw = kw.get("args")
+        okf, unknown = False, False
+        if args_kw is not None:
+            helpers = [c for c in _avb13.find_all(args_kw, "mcall") if c[2] in ("_rhs_arguments", "_scheme_arguments")]
+            if helpers:
+                ARGS = ("attr", helpers[0], "arguments")
+                want = _avb13.mk_join(_avb13.C(", "), _avb13.mk_if(("sym", "self._missing_variables"), _avb13.mk_list((("spread", ARGS), _avb13.C("missing_variables"))), ARGS))
+                vd = util.verdict(args_kw, [want])
+                okf, unknown = vd == "ok", vd == "unknown"
+            else:
+                unknown = _avb13.has_unk(args_kw)
+        if unknown:
+            ctx.undecided("R13.b", f.key("formal"), f"how CodeGenerator.{mname} builds the formal argument list is not understood", f.where())
+        else:
+            ctx.check(okf, "R13.b", f.key("formal"), "formal `missing_variables` appended iff the model has missing variables, and it reaches the template's args", f"CodeGenerator.{mname} hands args={_avb13.show(args_kw)[:160] if args_kw is not None else None} to the template, not the helper's arguments plus `missing_variables` exactly when self._missing_variables is non-empty", f.where())
         ctx.check(args_kw is not None and mv is not None, "R13.b", f.key("template"), "block and formals reach the template", f"CodeGenerator.{mname} does not pass missing_variables= / args= to the method template", f.where())
     ma = cgc.methods["_missing_variables_assignments"]
-    gens = [n for n in ast.walk(ma.node) if isinstance(n, ast.ListComp) and isinstance(n.elt, ast.Call) and norm(n.elt.func) == "self._doprint"]
-    okm = False
-    if gens:
-        g = gens[0].generators[0]
-        okm = norm(g.iter) == "self._missing_variables.items()" and not g.ifs and isinstance(g.target, ast.Tuple)
-        if okm:
-            nm, ix = [e.id for e in g.target.elts]
-            okm = norm(gens[0].elt.args[0]) == f"sympy.Symbol({nm})" and norm(gens[0].elt.args[1]) == f"missing_variables[{ix}]"
-    ctx.check(okm, "R13.b", ma.key("pairs"), "name := missing_variables[index] for every missing variable", "_missing_variables_assignments does not unpack every (name, index) pair of the model's missing variables", ma.where())
+    mav = util.value_of(ctx, ma)
+    comps13 = [c for c in _avb13.find_all(mav, "comp") if c[2] == ("mcall", ("sym", "self._missing_variables"), "items", (), ())]
+    if _avb13.has_unk(mav) and not comps13:
+        ctx.undecided("R13.b", ma.key("pairs"), "what _missing_variables_assignments builds is not understood", ma.where())
+    else:
+        okm = False
+        if comps13:
+            cp = comps13[0]
+            bv = ("bv", cp[1])
+            it_ = cp[3][0] if len(cp[3]) == 1 else None
+            okm = it_ is not None and not cp[4] and it_[0] == "mcall" and it_[2] == "_doprint" and len(it_[3]) >= 2 and it_[3][0] == ("call", "sympy.Symbol", (bv + (0,),), ()) and it_[3][1][0] == "sub" and it_[3][1][2] == bv + (1,) and it_[3][1][1][0] == "call" and it_[3][1][1][1].endswith("IndexedBase") and it_[3][1][1][2] and it_[3][1][1][2][0] == _avb13.C("missing_variables")
+        ctx.check(okm, "R13.b", ma.key("pairs"), "name := missing_variables[index] for every missing variable", "_missing_variables_assignments does not unpack every (name, index) pair of the model's missing variables as Symbol(name) := missing_variables[index]", ma.where())
     init = cgc.methods["__init__"]
     ctx.check(any(isinstance(n, ast.Assign) and norm(n.targets[0]) == "self._missing_variables" and norm(n.value) == "ode.missing_variables" for n in ast.walk(init.node)), "R13.b", init.key("source"), "generator uses ODE.missing_variables", "CodeGenerator.__init__ does not take the missing variables from ode.missing_variables", init.where())
     mi = cgc.methods["missing_index"]
